@@ -139,6 +139,19 @@ def make_case(seed, i):
         else:
             files["/w/pkg/_package.yml"] = files["/w/pkg/_package.yml"].replace("imports:\n", "imports:\n  - ../no_such_dir\n", 1)
             what = "import of a missing directory"
+    # the model file that holds the invalidation consists of several YAML documents (`---`), and the invalidation is not in the
+    # last one: a second document with one more definition follows it (in the valid original too)
+    md = rng.fork("multidoc")
+    if files is not None and md.chance(0.25):
+        hit_ = sorted(p for p in files if p.endswith((".yml", ".yaml")) and not p.endswith("/_package.yml") and p in valid_files and files[p] != valid_files[p])
+        if hit_:
+            extra_ = "\n---\nZqSecondDocument%d: !record\n  fields:\n    v: int\n    w: string\n" % md.randint(10, 99)
+            valid_files = dict(valid_files)
+            for p in hit_:
+                files[p] = files[p].rstrip("\n") + extra_
+                valid_files[p] = valid_files[p].rstrip("\n") + extra_
+            what = (what or "") + " [the file has a second YAML document after the one with the error]"
+            desc["error_in_a_document_that_is_not_the_last_of_its_file"] = True
     # directory names that differ from another package directory's in letter case only (pkg / Pkg, imp_core / Imp_core): on a
     # case-sensitive file system they are different directories
     cv = rng.fork("casevariant")
